@@ -1,1 +1,109 @@
-fn main(){}
+//! E3 `genrun`: explorer over the generator called in-process.
+//!
+//!   --lens C11   F-bad: every grammar of the bounded family; pest's verdict (pest_meta) against
+//!                the generator's (derive_typed_parser under catch_unwind)
+//!   --lens C20   determinism: token stream of derive_typed_parser for corpus grammars x option sets,
+//!                twice in this process; hashes are written to --hashes for cross-process comparison
+//!   --emit-probes DIR   write compile-probe crates (accepted half of F-bad; option variants)
+
+mod bad;
+mod det;
+
+use pegx::report::Report;
+
+pub struct Opts {
+    pub lens: String,
+    pub thorough: bool,
+    pub out: Option<String>,
+    pub hashes: Option<String>,
+    pub probes: Option<String>,
+    pub only: Option<String>,
+}
+
+/// Run the generator on an inline grammar with the given extra attribute lines.
+/// Ok(token string) or Err(panic message).
+pub fn generate(src: &str, attrs: &[&str]) -> Result<String, String> {
+    let src = src.to_string();
+    let attrs: Vec<String> = attrs.iter().map(|s| s.to_string()).collect();
+    let r = std::panic::catch_unwind(move || {
+        let mut text = String::new();
+        text.push_str(&format!("#[grammar_inline = {:?}]\n", src));
+        for a in &attrs {
+            text.push_str(&format!("#[{}]\n", a));
+        }
+        text.push_str("struct P;");
+        let ts: proc_macro2::TokenStream = text.parse().expect("attribute text");
+        pest_typed_generator::derive_typed_parser(ts, false, false).to_string()
+    });
+    r.map_err(|p| {
+        if let Some(s) = p.downcast_ref::<String>() {
+            s.clone()
+        } else if let Some(s) = p.downcast_ref::<&str>() {
+            s.to_string()
+        } else {
+            "panic".into()
+        }
+    })
+}
+
+fn main() {
+    let args: Vec<String> = std::env::args().collect();
+    let mut o = Opts {
+        lens: String::new(),
+        thorough: false,
+        out: None,
+        hashes: None,
+        probes: None,
+        only: None,
+    };
+    let mut i = 1;
+    while i < args.len() {
+        let v = args.get(i + 1).cloned().unwrap_or_default();
+        match args[i].as_str() {
+            "--lens" => {
+                o.lens = v;
+                i += 1
+            }
+            "--tier" => {
+                o.thorough = v == "thorough";
+                i += 1
+            }
+            "--out" => {
+                o.out = Some(v);
+                i += 1
+            }
+            "--hashes" => {
+                o.hashes = Some(v);
+                i += 1
+            }
+            "--emit-probes" => {
+                o.probes = Some(v);
+                i += 1
+            }
+            "--only" => {
+                o.only = Some(v);
+                i += 1
+            }
+            _ => {}
+        }
+        i += 1;
+    }
+    if std::env::var("VERIF_SHOW_PANICS").is_err() {
+        std::panic::set_hook(Box::new(|_| {}));
+    }
+    let t0 = std::time::Instant::now();
+    let rep: Report = match o.lens.as_str() {
+        "C11" => bad::run(&o),
+        "C20" => det::run(&o),
+        _ => {
+            eprintln!("unknown lens");
+            std::process::exit(2)
+        }
+    };
+    let j = rep.to_json(&o.lens, t0.elapsed().as_secs_f64(), false);
+    match &o.out {
+        Some(p) => std::fs::write(p, j.to_string()).unwrap(),
+        None => println!("{}", j.to_string()),
+    }
+    std::process::exit(if rep.violations.is_empty() { 0 } else { 1 });
+}
